@@ -44,7 +44,8 @@ objs=[(k*pp*uu + grad(pp), np.array([[0.25,0.25],[0.5,0.25]]))]'''),
 
 
 def run(v, tier, seed, g):
-    res = common.run_cases(EXPRS, script="oraclerun.py", timeout=400, extra={"seed": seed, "expressions": True})
+    exprs = EXPRS + corpus.random_expr_cases(seed, 60 if tier == "quick" else 800)
+    res = common.run_cases(exprs, script="oraclerun.py", timeout=400, extra={"seed": seed, "expressions": True})
     st = valprops.account(v, res, "c04", what="expression kernel differs from the expression evaluated at the points")
     # descriptor: what the compiled ufcx_expression says vs the expression
     import ffx
